@@ -424,9 +424,12 @@ def possible_evaluations(world):
 class SysRun:
     """One history on one world, with the C10 monitors after every job.  fresh=True: a new BertE per job."""
 
-    def __init__(self, fresh, per_state, inject_seed):
+    def __init__(self, fresh, per_state, inject_seed, p_inject=1.0, max_triples=None):
         self.fresh = fresh
         self.per_state = per_state
+        self.p_inject = p_inject
+        self.max_triples = max_triples
+        self.triples = 0
         self.irng = random.Random(inject_seed)
         self.events = []         # the explicit history: generator events + injected evaluations
         self.dumps = []          # projection after every job, in order
@@ -509,11 +512,19 @@ class SysRun:
             prev = d
 
     def after_event(self, world):
+        self.count('states')
+        if self.irng.random() >= self.p_inject:
+            return
         evs = possible_evaluations(world)
+        self.count('states_with_repeated_evaluations')
         self.count('possible_evaluations', len(evs))
         if self.per_state is not None and len(evs) > self.per_state:
             evs = self.irng.sample(evs, self.per_state)
         for ev in evs:
+            if self.max_triples is not None and self.triples >= self.max_triples:
+                return
+            self.triples += 1
+            self.count('repeated:%s' % ev['e'])
             self.triple(world, ev)
 
     # --- drive
@@ -575,15 +586,17 @@ class SysRun:
 
 def history_pair(args):
     """Worker: the same history on the long-lived instance and with a fresh BertE per job."""
-    seed, length, per_state, replay_history = args
+    seed, length, per_state, replay_history, p_inject, max_triples, deadline = args
     os.environ['PYTHONHASHSEED'] = '0'
+    if deadline is not None and time.time() > deadline:
+        return {'seed': seed, 'skipped': True}
     out = {'seed': seed, 'jobs': 0, 'violations': [], 'mismatch': [], 'hist': {}, 'nontrivial': [],
            'history': None, 'error': None, 'wall': 0.0, 'prefix_only': 0, 'find_decisions': 0}
     t0 = time.time()
     try:
         FindRecorder.install()
         ExecRecorder.install()
-        a = SysRun(False, per_state, seed * 7 + 1)
+        a = SysRun(False, per_state, seed * 7 + 1, p_inject, max_triples)
         if replay_history is not None:
             a.replay(replay_history)
             h = replay_history
